@@ -38,12 +38,17 @@ KeyMatches(c) == \A k \in 1..Len(Children(c)) :
 OrderComplete(c) == Table[c].order # <<>> => \A m \in Members(c) : m \in Range(Table[c].order)
 MembersUnique(c) == /\ \A i, j \in 1..Len(Children(c)) : Children(c)[i].member = Children(c)[j].member => i = j
                     /\ \A i \in 1..Len(Children(c)), j \in 1..Len(Attrs(c)) : Children(c)[i].member # Attrs(c)[j].member
-WellFormed(c) == KeyMatches(c) /\ OrderComplete(c) /\ MembersUnique(c)
+\* a child whose declared occurrence bound is above one (or open) is held in a list, one with bound one is not: a class that
+\* holds a repeatable child in a single slot keeps the last occurrence only
+Declared(ch) == ch.min >= 0 \/ ch.max >= 0
+CardConsistent(c) == \A k \in 1..Len(Children(c)) : Declared(Children(c)[k]) => (Children(c)[k].list <=> Children(c)[k].max # 1)
+WellFormed(c) == KeyMatches(c) /\ OrderComplete(c) /\ MembersUnique(c) /\ CardConsistent(c)
 
 (***************************************************************************)
 (* Instance variants (depth 1: children are empty instances of their class) *)
 (***************************************************************************)
-MaxCount(ch) == IF ch.list THEN 3 ELSE 1
+\* how many instances of a child a variant may hold: by the declared bound where there is one, else by how it is held
+MaxCount(ch) == IF ch.max = 1 THEN 1 ELSE IF Declared(ch) \/ ch.list THEN 3 ELSE 1
 Unq(c) == {k \in 1..Len(Attrs(c)) : ~Attrs(c)[k].qualified}
 RtVariants(c) ==
     {[cls |-> c, kind |-> "empty", which |-> "", n |-> 0]}
@@ -85,7 +90,8 @@ Emitted(v) == IF Table[v.cls].order = <<>> THEN Members(v.cls) ELSE Members(v.cl
 Recognised(c, m) == LET ch == Children(c)[ChildBy(c, m)] IN
                     /\ ch.cls \in Classes
                     /\ \E k \in 1..Len(Children(c)) : Children(c)[k].key = Tag(ch.cls) /\ Children(c)[k].member = m
-RoundTrips(v) == \A m \in Members(v.cls) : Count(v, m) > 0 => m \in Emitted(v) /\ Recognised(v.cls, m)
+RoundTrips(v) == \A m \in Members(v.cls) : Count(v, m) > 0 => /\ m \in Emitted(v) /\ Recognised(v.cls, m)
+                                                              /\ (Count(v, m) > 1 => Children(v.cls)[ChildBy(v.cls, m)].list)
 
 (***************************************************************************)
 (* Validation variants (C13)                                               *)
